@@ -133,7 +133,8 @@ class Scratch:
         self.repo = os.path.join(self.root, "repo")
         self.target = os.path.join(self.root, "target")
         shutil.copytree("/repo", self.repo, ignore=shutil.ignore_patterns("target", ".git"))
-        self.env = {"MIDISIM_REPO": self.repo, "MIDISIM_TARGET_DIR": self.target, "MIDISIM_EVIDENCE_DIR": os.path.join(self.root, "evidence"), "MIDISIM_REPLAY_DIR": os.path.join(self.root, "replays")}
+        # the self tests measure the search, so the regression corpus is switched off for them
+        self.env = {"MIDISIM_CORPUS": "/nonexistent", "MIDISIM_REPO": self.repo, "MIDISIM_TARGET_DIR": self.target, "MIDISIM_EVIDENCE_DIR": os.path.join(self.root, "evidence"), "MIDISIM_REPLAY_DIR": os.path.join(self.root, "replays")}
 
     def check(self, *a):
         return sh([os.path.join(VERIF, "check")] + list(a), env=self.env)
@@ -164,6 +165,14 @@ def judge(sc, name, breaks, quick_budget_args, also_clean=None):
             # the same file against the unchanged tree: must pass
             rc3, out3, _ = sh([os.path.join(VERIF, "check"), p, "--replay", rp])
             entry["replay_clean_on_unchanged_tree"] = rc3 == 0
+            if entry["replay_reproduces"] and rc3 == 0:
+                # keep the minimised history as a regression test (replayed before every search)
+                d = os.path.join(VERIF, "corpus", p)
+                os.makedirs(d, exist_ok=True)
+                j = json.load(open(rp))
+                keep = {k: j[k] for k in ("format", "property", "rule", "detail", "shape", "trace") if k in j}
+                keep["origin"] = name
+                json.dump(keep, open(os.path.join(d, name + ".json"), "w"), indent=1)
         elif rc not in (0, 1):
             entry["error"] = (out + err)[-600:]
         res[p] = entry
@@ -273,6 +282,8 @@ def seeded(args):
                 if e.get("caught"):
                     okr = e.get("replay_reproduces") and e.get("replay_clean_on_unchanged_tree")
                     cells.append(f"{p}:{e['rule']}@run{e['run']}/{e['min_events']}ev{'' if okr else ' REPLAY-BAD'}")
+                    if not okr:
+                        missed += 1
                 else:
                     cells.append(f"{p}:MISSED(rc={e['rc']})")
                     missed += 1
